@@ -31,6 +31,16 @@ Proof.
     pose proof (apply_op_len o bf af) as H. rewrite E in H. cbn [fst] in H. lia.
 Qed.
 
+(** the lengths of the messages of a window add up to the window *)
+Lemma window_len (threshold : N) (buf rb rest : list byte) :
+  (length rb <= length buf)%nat -> ((length rb < length buf)%nat -> rest = []) ->
+  ops_len (write_window threshold rb buf) = len buf.
+Proof.
+  intros H1 H2. destruct (window_ok threshold buf rb rest [] H1 H2) as [Ha _].
+  pose proof (apply_ops_len (write_window threshold rb buf) [] (rb ++ rest)) as Hl.
+  rewrite Ha in Hl. cbn [fst] in Hl. rewrite app_nil_r, rev_length in Hl. rewrite len_spec. cbn [length] in Hl. lia.
+Qed.
+
 Section Writer.
   Variables (bufSize threshold : N).
   Variable enc : op -> list byte.
